@@ -254,6 +254,85 @@ theorem command_open_calls :
     opens Restic.Gen.C39_runRestore_calls = ["openWithReadLock"] := by
   refine ⟨?_, ?_, ?_, ?_, ?_, ?_, ?_, ?_, ?_, ?_, ?_, ?_, ?_, ?_, ?_, ?_⟩ <;> decide
 
+/-! ## the plumbing table, regenerated from the source (T1, `callargs` facts) -/
+
+open Restic.Gen in
+/-- the reader commands of the statement (all but `list`, which has its own expression) -/
+def readerFns : List (List String × List String) :=
+  [(C39_runSnapshots_calls, C39_runSnapshots_callargs), (C39_runLs_calls, C39_runLs_callargs),
+   (C39_runFind_calls, C39_runFind_callargs), (C39_runStats_calls, C39_runStats_callargs),
+   (C39_runCat_calls, C39_runCat_callargs), (C39_runDump_calls, C39_runDump_callargs),
+   (C39_runDiff_calls, C39_runDiff_callargs), (C39_runKeyList_calls, C39_runKeyList_callargs),
+   (C39_runRestore_calls, C39_runRestore_callargs)]
+
+open Restic.Gen in
+/-- The table of `dryRun` arguments as the **current source** has it: for every command the third
+    argument of its `openWith…Lock(ctx, gopts, <expr>, printer)` call(s), and whether the function
+    contains the `--no-lock is only applicable in combination with --dry-run` refusal. -/
+def genTable : SourceTable :=
+  { expr := fun c => match c with
+      | .backup => dryExprOf C39_runBackup_calls C39_runBackup_callargs
+      | .forget => dryExprOf C39_runForget_calls C39_runForget_callargs
+      | .prune => dryExprOf C39_runPrune_calls C39_runPrune_callargs
+      | .rewrite => dryExprOf C39_runRewrite_calls C39_runRewrite_callargs
+      | .repairSnapshots => dryExprOf C39_runRepairSnapshots_calls C39_runRepairSnapshots_callargs
+      | .check => dryExprOf C39_runCheck_calls C39_runCheck_callargs
+      | .listLocks => dryExprOf C39_runList_calls C39_runList_callargs
+      | .reader =>
+        -- every reader passes `gopts.NoLock`; `list` passes `gopts.NoLock || args[0] == "locks"`,
+        -- which is `gopts.NoLock` for everything but `list locks`
+        if readerFns.all (fun p => dryExprOf p.1 p.2 == some .noLock) &&
+           dryExprOf C39_runList_calls C39_runList_callargs == some .noLockOrLocks then some .noLock else none
+    refuses := fun c => match c with
+      | .backup => refusesNoLock C39_runBackup_callargs
+      | .forget => refusesNoLock C39_runForget_callargs
+      | .prune => refusesNoLock C39_runPrune_callargs
+      | .rewrite => refusesNoLock C39_runRewrite_callargs
+      | .repairSnapshots => refusesNoLock C39_runRepairSnapshots_callargs
+      | .check => refusesNoLock C39_runCheck_callargs
+      | .listLocks => refusesNoLock C39_runList_callargs
+      | .reader => readerFns.any (fun p => refusesNoLock p.2) || refusesNoLock C39_runList_callargs }
+
+/-- `openArg` as computed from the regenerated table -/
+def openArgCur : Cmd → Flags → Option Bool := openArgFrom genTable
+
+/-- what the current source passes, command by command (re-proved on every run against the
+    regenerated `callargs`; a changed expression, a local variable in its place, an additional open
+    call or a new refusal makes this fail) -/
+theorem source_table :
+    genTable.expr .backup = some .dry ∧
+    genTable.expr .forget = some .dryAndNoLock ∧
+    genTable.expr .prune = some .dryAndNoLock ∧
+    genTable.expr .rewrite = some .dry ∧
+    genTable.expr .repairSnapshots = some .dry ∧
+    genTable.expr .check = some .noLock ∧
+    genTable.expr .listLocks = some .noLockOrLocks ∧
+    genTable.expr .reader = some .noLock ∧
+    genTable.refuses .backup = false ∧ genTable.refuses .forget = true ∧ genTable.refuses .prune = true ∧
+    genTable.refuses .rewrite = false ∧ genTable.refuses .repairSnapshots = false ∧
+    genTable.refuses .check = false ∧ genTable.refuses .listLocks = false ∧ genTable.refuses .reader = false := by
+  refine ⟨?_, ?_, ?_, ?_, ?_, ?_, ?_, ?_, ?_, ?_, ?_, ?_, ?_, ?_, ?_, ?_⟩ <;> decide +kernel
+
+/-- the hand-written table `openArg` of the model (used by `specOK` and by the driver) **is** the
+    table of the current source -/
+theorem openArg_regenerated (c : Cmd) (f : Flags) : openArgCur c f = openArg c f := by
+  obtain ⟨h1, h2, h3, h4, h5, h6, h7, h8, r1, r2, r3, r4, r5, r6, r7, r8⟩ := source_table
+  obtain ⟨d, n⟩ := f
+  cases c <;> cases d <;> cases n <;>
+    simp [openArgCur, openArgFrom, openArg, DryExpr.eval, h1, h2, h3, h4, h5, h6, h7, h8, r1, r2, r3, r4, r5, r6, r7, r8]
+
+/-- `scope_modes` for the regenerated table: in the current source, every invocation the property
+    speaks about is opened behind the dry-run wrapper, or is `forget`/`prune --dry-run` without
+    `--no-lock` -/
+theorem scope_modes_current (c : Cmd) (f : Flags) (hs : inScope c f = true) :
+    openArgCur c f = some true ∨
+    ((c = .forget ∨ c = .prune) ∧ f.dryRun = true ∧ f.noLock = false ∧ openArgCur c f = some false) := by
+  rw [openArg_regenerated]; exact scope_modes c f hs
+
+theorem nolock_wrapped_current (c : Cmd) (f : Flags) (hs : inScope c f = true) (hn : f.noLock = true) :
+    openArgCur c f = some true := by
+  rw [openArg_regenerated]; exact nolock_wrapped c f hs hn
+
 /-! ## non-vacuity -/
 
 def exLock : Handle := ⟨.lock, "l1"⟩
